@@ -210,3 +210,10 @@ pub fn grid_for(all: &[&[Seg]]) -> Vec<u32> {
     }
     (0..=top + 1).collect()
 }
+
+/// `VERIF_SCALE_PCT` (default 100) scales the number of RANDOM cases of a tier; the exhaustive scopes are
+/// not affected.  Used by the check script's drift escalation (thorough scopes, a quarter of the random cases).
+pub fn scaled(n: usize) -> usize {
+    let pct = std::env::var("VERIF_SCALE_PCT").ok().and_then(|s| s.parse::<usize>().ok()).unwrap_or(100);
+    (n * pct / 100).max(1)
+}
